@@ -432,8 +432,18 @@ def pm_layout_rules(ck, P, rule="R-PM-LAYOUT"):
         e = n.get("e")
         if e is None or not ir.contains(e, lambda y: y.get("k") == "call" and (y.get("q") or "").endswith("Ok::{Ctor#0}")):
             continue
-        okf = any(f[0] == "cmp" and lim_name is not None and ((f[3] == lim_name and f[2] in ("<=", "<") and f[1].endswith("root_bytes.len()")) or
-                                                                  (f[1] == lim_name and f[2] in (">=", ">") and f[3].endswith("root_bytes.len()"))) for f in facts)
+        # what is returned as the root: the `root_bytes` initialiser of a Directory literal, or <returned local>.root_bytes
+        okc = [y for y in ir.walk_nodes(e) if y.get("k") == "call" and (y.get("q") or "").endswith("Ok::{Ctor#0}")][0]
+        rv = ir.strip(okc["a"][0]) if okc.get("a") else None
+        root = None
+        if rv is not None and rv.get("k") == "struct":
+            fi = [f_ for f_ in rv.get("fields", ()) if f_["name"] == "root_bytes"]
+            root = ir.place_str(fi[0]["e"]) if fi else None
+        elif rv is not None and rv.get("k") == "path":
+            root = ir.place_str(rv) + ".root_bytes"
+        want = (root + ".len()") if root else None
+        okf = any(f[0] == "cmp" and lim_name is not None and want is not None and ((f[3] == lim_name and f[2] in ("<=", "<") and f[1] == want) or
+                                                                                       (f[1] == lim_name and f[2] in (">=", ">") and f[3] == want)) for f in facts)
         if okf:
             n_ok += 1
         else:
